@@ -26,12 +26,12 @@ type c11AttrSet struct {
 	Origin  int      `json:"origin"`
 	ASPath  []uint32 `json:"aspath"`
 	MED     int64    `json:"med"`
-	Comms   int      `json:"comms"`   // number of communities
-	Pad     int      `json:"pad"`     // size of an unknown optional transitive attribute (0 = none)
-	PadFit  int      `json:"pad_fit"` // if != 0: choose Pad so that the attribute block ends PadFit octets below (-: above) the single-route limit
-	NH      int      `json:"nh"`      // next hop index
-	LL      bool     `json:"ll"`      // add link-local next hop (v6 families)
-	LLIdx   int      `json:"ll_idx"`  // which link-local address (independent of the global next hop)
+	Comms   int      `json:"comms"`    // number of communities
+	Pad     int      `json:"pad"`      // size of an unknown optional transitive attribute (0 = none)
+	PadFit  int      `json:"pad_fit"`  // if != 0: choose Pad so that the attribute block ends PadFit octets below (-: above) the single-route limit
+	NH      int      `json:"nh"`       // next hop index
+	LL      bool     `json:"ll"`       // add link-local next hop (v6 families)
+	LLIdx   int      `json:"ll_idx"`   // which link-local address (independent of the global next hop)
 	SameKey bool     `json:"same_key"` // force the batching hash of this set onto a shared value
 	// Arrive: how the attribute objects came to be (what is packed is what the path holds, but the objects have a history):
 	// 0 built by the constructors; 1 decoded from the wire of a peer without the 4-octet-AS capability and
@@ -50,19 +50,19 @@ type c11Change struct {
 }
 
 type c11Case struct {
-	AddPath bool         `json:"add_path"`
+	AddPath bool `json:"add_path"`
 	// direction of the ADD-PATH negotiation as seen by the sender (only with AddPath): 0 both, 1 send only
 	// (identifiers on the wire), 2 receive only (no identifiers on the wire: the session behaves like one
 	// without ADD-PATH for what is sent)
 	AddPathDir int `json:"add_path_dir"`
 	// the identifier the route was received with differs from the one it is advertised with
-	RemoteIDs bool `json:"remote_ids"`
-	ExtMsg  bool         `json:"ext_msg"`
-	Sets    []c11AttrSet `json:"sets"`
-	Changes []c11Change  `json:"changes"`
-	Bulk    int          `json:"bulk"` // additionally announce this many distinct prefixes with set 0
-	BulkFam int          `json:"bulk_fam"`
-	BulkLen int          `json:"bulk_len"` // 0: uniform prefix length, 1: mixed lengths
+	RemoteIDs bool         `json:"remote_ids"`
+	ExtMsg    bool         `json:"ext_msg"`
+	Sets      []c11AttrSet `json:"sets"`
+	Changes   []c11Change  `json:"changes"`
+	Bulk      int          `json:"bulk"` // additionally announce this many distinct prefixes with set 0
+	BulkFam   int          `json:"bulk_fam"`
+	BulkLen   int          `json:"bulk_len"` // 0: uniform prefix length, 1: mixed lengths
 }
 
 func drawC11(t *rapid.T) c11Case {
@@ -164,7 +164,7 @@ func c11NLRI(fam, prefix int) bgp.NLRI {
 		n, _ := bgp.NewIPAddrPrefix(netip.PrefixFrom(netip.AddrFrom16([16]byte{0x20, 0x01, 0x0d, 0xb8, 0, byte(prefix)}), 48))
 		return n
 	default:
-		n, _ := bgp.NewLabeledVPNIPAddrPrefix(netip.PrefixFrom(netip.AddrFrom4([4]byte{10, 3, byte(prefix), 0}), 24), *bgp.NewMPLSLabelStack(uint32(100+prefix)), bgp.NewRouteDistinguisherTwoOctetAS(65000, 1))
+		n, _ := bgp.NewLabeledVPNIPAddrPrefix(netip.PrefixFrom(netip.AddrFrom4([4]byte{10, 3, byte(prefix), 0}), 24), *bgp.NewMPLSLabelStack(uint32(100 + prefix)), bgp.NewRouteDistinguisherTwoOctetAS(65000, 1))
 		return n
 	}
 }
@@ -183,7 +183,7 @@ func c11BulkNLRI(fam, i, mixed int) bgp.NLRI {
 		n, _ := bgp.NewIPAddrPrefix(p)
 		return n
 	case 3:
-		n, _ := bgp.NewLabeledVPNIPAddrPrefix(netip.PrefixFrom(netip.AddrFrom4([4]byte{172, byte(16 + i>>16), byte(i >> 8), byte(i)}), 32), *bgp.NewMPLSLabelStack(uint32(16+i%1000)), bgp.NewRouteDistinguisherTwoOctetAS(65000, 1))
+		n, _ := bgp.NewLabeledVPNIPAddrPrefix(netip.PrefixFrom(netip.AddrFrom4([4]byte{172, byte(16 + i>>16), byte(i >> 8), byte(i)}), 32), *bgp.NewMPLSLabelStack(uint32(16 + i%1000)), bgp.NewRouteDistinguisherTwoOctetAS(65000, 1))
 		return n
 	}
 	bits := 32
